@@ -1,11 +1,11 @@
 (* C05 - Kernels compute their documented closed forms and are valid covariances.
-   Property theorems only; proofs live in thm/AProfiles.v and thm/AKernelsThm.v.  The radial
+   Property theorems only; proofs live in thm/ADocumented.v, thm/ADistThm.v and thm/AKernelsThm.v.  The radial
    profiles, the distance entry, the node arithmetic and compute_cov_func are regenerated from
    mellon/cov.py, base_cov.py, util.py, parameters.py on every run (gen/AKernels.v, gen/ACovFunc.v).
    Partial: positive semi-definiteness of the five stationary kernels (Bochner's theorem) is not
    provable with the installed libraries; it is tested numerically as support only. *)
 From Coq Require Import Reals List ZArith Lra.
-From MellonV Require Import ALists AKernels AKExpr ACovFunc AListsFacts AProfiles AKernelsThm.
+From MellonV Require Import ALists AKernels AKExpr ACovFunc AListsFacts ADocumented ADistThm AKernelsThm.
 Import ListNotations.
 Open Scope R_scope.
 
